@@ -572,3 +572,8 @@ def replay_args(v):
     if v["key"].startswith("c05.p2.") or v["key"].startswith("c05.p3."):
         return ("c05_second_error", [])
     return None
+
+
+# native scenarios that exercise, against the real build, the behaviours this spec decides: on a tree where the spec finds no
+# violation every one of them must NOT reproduce (a scenario that reproduces there means the spec misses something)
+SCENARIOS = [('c05_lost_wakeup', ['any']), ('c05_second_error', [])]
